@@ -654,7 +654,7 @@ void d_string_erase(DString * baseString, size_t pos, size_t len) {
 			return;
 		}
 
-		if ((pos + len) >= baseString->currentStringLength) {
+		if (len >= baseString->currentStringLength - pos) {
 			len = -1;
 		}
 
